@@ -6,10 +6,22 @@
 // One run token exists.  A task (a simulated client, or a goroutine started
 // by an instrumented `go` statement) executes only while it holds the token;
 // every other task is parked on its private gate.  At yield points (before a
-// lock is taken, after it is released, at storage seam entry and exit, after
-// a task is spawned) the tape decides whether the token moves.  When the
-// runtime is not active every wrapper falls through to the original
-// operation, so one binary serves both kinds of world.
+// lock is taken, after it is released, before an atomic operation, at storage
+// seam entry and exit, after a task is spawned) the tape decides whether the
+// token moves.  When the runtime is not active every wrapper falls through to
+// the original operation, so one binary serves both kinds of world.
+//
+// Two builds exist (sync_chan.go / sync_pipe.go).  The ordinary one guards
+// the scheduler's state with a mutex and parks tasks on channels.  The
+// `simrace` one is meant for binaries built with -race: there the token is
+// handed over through pipes with raw system calls and the scheduler takes no
+// lock and touches no channel, so that the scheduler itself adds no
+// happens-before edge between tasks.  The tasks still run strictly one at a
+// time, in the order the tape dictates, but the race detector sees only the
+// synchronisation the code under test performs itself - and reports, for the
+// very schedule being simulated, every pair of accesses that this
+// synchronisation does not order.  All functions of this package are
+// //go:norace: the scheduler's own state is protected by the token.
 package simrt
 
 import (
@@ -33,9 +45,10 @@ const (
 type task struct {
 	id    int
 	name  string
-	gate  chan struct{}
+	gate  *gate
 	state taskState
 	wg    *sync.WaitGroup
+	fn    func()
 }
 
 // Tape holds the scheduling choices of a run.
@@ -60,8 +73,12 @@ type Report struct {
 	Sites      map[string]int64
 }
 
+type wgEntry struct {
+	wg *sync.WaitGroup
+	n  int
+}
+
 var (
-	mu      sync.Mutex
 	active  bool
 	tasks   []*task
 	cur     *task
@@ -72,19 +89,26 @@ var (
 	report  Report
 	finish  chan struct{}
 	ended   bool
-	wgCount map[*sync.WaitGroup]int
+	wgs     []*wgEntry
 	events  []string
 	tracing bool
+	// exits counts task goroutines that have not returned yet.  Its Wait
+	// gives the caller of Run a happens-before edge from the end of every
+	// task (Done does not order the tasks among themselves).
+	exits *sync.WaitGroup
 )
 
 // Active reports whether a simulated run is in progress.
+//
+//go:norace
 func Active() bool {
-	mu.Lock()
+	lockState()
 	a := active
-	mu.Unlock()
+	unlockState()
 	return a
 }
 
+//go:norace
 func next64() uint64 {
 	rng += 0x9e3779b97f4a7c15
 	z := rng
@@ -93,30 +117,35 @@ func next64() uint64 {
 	return z ^ (z >> 31)
 }
 
+//go:norace
 func logf(f string, a ...interface{}) {
 	if tracing {
-		name := "-"
+		id := -1
 		if cur != nil {
-			name = cur.name
+			id = cur.id
 		}
-		events = append(events, fmt.Sprintf("%d %s ", seq, name)+fmt.Sprintf(f, a...))
+		events = append(events, fmt.Sprintf("%d t%d ", seq, id)+fmt.Sprintf(f, a...))
 	}
 }
 
 // Seq returns the global event sequence number (used to stamp histories).
+//
+//go:norace
 func Seq() int64 {
-	mu.Lock()
+	lockState()
 	s := seq
 	seq++
-	mu.Unlock()
+	unlockState()
 	return s
 }
 
 // Run executes the given client functions as tasks under the tape and
 // returns when every task (including those spawned on the way) has ended,
 // or the run deadlocked, live-locked or a task panicked.
+//
+//go:norace
 func Run(t Tape, trace bool, budget int64, clients map[string]func()) (Report, []string) {
-	mu.Lock()
+	lockState()
 	active = true
 	tasks = nil
 	cur = nil
@@ -127,9 +156,10 @@ func Run(t Tape, trace bool, budget int64, clients map[string]func()) (Report, [
 	report = Report{Sites: map[string]int64{}}
 	finish = make(chan struct{})
 	ended = false
-	wgCount = map[*sync.WaitGroup]int{}
+	wgs = nil
 	events = nil
 	tracing = trace
+	exits = &sync.WaitGroup{}
 	names := make([]string, 0, len(clients))
 	for n := range clients {
 		names = append(names, n)
@@ -140,72 +170,105 @@ func Run(t Tape, trace bool, budget int64, clients map[string]func()) (Report, [
 	}
 	if len(tasks) == 0 {
 		active = false
-		mu.Unlock()
+		unlockState()
 		return report, nil
+	}
+	if tracing {
+		for _, tk := range tasks {
+			events = append(events, fmt.Sprintf("0 - task t%d = %s", tk.id, tk.name))
+		}
 	}
 	first := pickLocked(nil)
 	cur = first
 	first.state = running
-	mu.Unlock()
-	first.gate <- struct{}{}
+	unlockState()
+	first.gate.signal()
 	<-finish
-	mu.Lock()
+	lockState()
+	allDone := true
+	for _, o := range tasks {
+		if o.state != done {
+			allDone = false
+		}
+	}
+	ex := exits
+	unlockState()
+	if allDone {
+		ex.Wait()
+	}
+	lockState()
 	active = false
 	report.Yields = seq
 	report.Tasks = len(tasks)
 	r := report
 	ev := events
-	mu.Unlock()
+	for _, o := range tasks {
+		if o.state == done {
+			o.gate.close()
+		}
+	}
+	unlockState()
 	return r, ev
 }
 
+//go:norace
 func spawnLocked(name string, fn func()) *task {
-	t := &task{id: len(tasks), name: name, gate: make(chan struct{}, 1), state: runnable}
+	t := &task{id: len(tasks), name: name, gate: newGate(), state: runnable, fn: fn}
 	tasks = append(tasks, t)
-	go func() {
-		<-t.gate
-		defer func() {
-			if r := recover(); r != nil {
-				mu.Lock()
-				if !ended {
-					report.Panic = r
-					report.PanicStack = string(debug.Stack())
-					report.PanicTask = t.name
-				}
-				endLocked()
-				mu.Unlock()
-				return
-			}
-		}()
-		fn()
-		mu.Lock()
-		t.state = done
-		logf("task ends")
-		nxt := pickLocked(nil)
-		if nxt == nil {
-			allDone := true
-			for _, o := range tasks {
-				if o.state != done {
-					allDone = false
-				}
-			}
-			if !allDone {
-				report.Deadlock = true
-				report.WaitGraph = waitGraphLocked()
-			}
-			endLocked()
-			mu.Unlock()
-			return
-		}
-		cur = nxt
-		nxt.state = running
-		report.Switches++
-		mu.Unlock()
-		nxt.gate <- struct{}{}
-	}()
+	exits.Add(1)
+	go t.main(exits)
 	return t
 }
 
+// main is the body of a task's goroutine.
+//
+//go:norace
+func (t *task) main(ex *sync.WaitGroup) {
+	defer ex.Done()
+	t.gate.wait()
+	defer t.recovered()
+	t.fn()
+	lockState()
+	t.state = done
+	logf("task ends")
+	nxt := pickLocked(nil)
+	if nxt == nil {
+		allDone := true
+		for _, o := range tasks {
+			if o.state != done {
+				allDone = false
+			}
+		}
+		if !allDone {
+			report.Deadlock = true
+			report.WaitGraph = waitGraphLocked()
+		}
+		endLocked()
+		unlockState()
+		return
+	}
+	cur = nxt
+	nxt.state = running
+	report.Switches++
+	unlockState()
+	nxt.gate.signal()
+}
+
+//go:norace
+func (t *task) recovered() {
+	if r := recover(); r != nil {
+		lockState()
+		if !ended {
+			report.Panic = r
+			report.PanicStack = string(debug.Stack())
+			report.PanicTask = t.name
+		}
+		endLocked()
+		unlockState()
+	}
+}
+
+//go:norace
 func endLocked() {
 	if !ended {
 		ended = true
@@ -213,10 +276,23 @@ func endLocked() {
 	}
 }
 
+//go:norace
 func waitGraphLocked() string {
 	s := ""
 	for _, t := range tasks {
-		st := map[taskState]string{runnable: "runnable", running: "running", waitLock: "waiting-for-lock", waitWG: "waiting-for-waitgroup", done: "done"}[t.state]
+		st := "?"
+		switch t.state {
+		case runnable:
+			st = "runnable"
+		case running:
+			st = "running"
+		case waitLock:
+			st = "waiting-for-lock"
+		case waitWG:
+			st = "waiting-for-waitgroup"
+		case done:
+			st = "done"
+		}
 		s += fmt.Sprintf("%s:%s ", t.name, st)
 	}
 	return s
@@ -224,6 +300,8 @@ func waitGraphLocked() string {
 
 // pickLocked chooses the next task to run among the runnable ones (excluding
 // `not`), by the tape's choice stream.  nil if none.
+//
+//go:norace
 func pickLocked(not *task) *task {
 	var cands []*task
 	for _, t := range tasks {
@@ -239,66 +317,81 @@ func pickLocked(not *task) *task {
 
 // switchFrom parks the calling task t (already marked with its new state)
 // and hands the token to nxt.
+//
+//go:norace
 func switchFrom(t, nxt *task) {
 	cur = nxt
 	nxt.state = running
 	report.Switches++
-	mu.Unlock()
-	nxt.gate <- struct{}{}
-	<-t.gate
-	mu.Lock()
+	unlockState()
+	nxt.gate.signal()
+	t.gate.wait()
+	lockState()
+}
+
+// forever parks the calling goroutine for good (the run is over).
+//
+//go:norace
+func forever() {
+	select {}
 }
 
 // Yield is a scheduling point: the token may move to another runnable task.
+//
+//go:norace
 func Yield(site string) {
-	mu.Lock()
+	lockState()
 	if !active || ended || cur == nil {
-		mu.Unlock()
+		unlockState()
 		return
 	}
 	t := cur
 	s := seq
 	seq++
-	report.Sites[site]++
+	if !RaceMode {
+		report.Sites[site]++
+	}
 	logf("yield %s", site)
 	if maxSeq > 0 && seq > maxSeq {
 		report.Livelock = true
 		endLocked()
-		mu.Unlock()
-		select {} // the run is over; this task never continues
+		unlockState()
+		forever() // the run is over; this task never continues
 	}
 	if tape.Preempt[s] {
 		if nxt := pickLocked(t); nxt != nil {
-			logf("preempted at %s -> %s", site, nxt.name)
+			logf("preempted at %s -> t%d", site, nxt.id)
 			report.Preempted++
 			t.state = runnable
 			switchFrom(t, nxt)
-			mu.Unlock()
+			unlockState()
 			return
 		}
 	}
-	mu.Unlock()
+	unlockState()
 }
 
 // Acquire takes a lock: a yield point, then TryLock; a task that cannot get
 // the lock is parked until some lock is released (then it tries again).
+//
+//go:norace
 func Acquire(try func() bool, lock func(), site string) {
-	mu.Lock()
+	lockState()
 	if !active || ended || cur == nil {
-		mu.Unlock()
+		unlockState()
 		lock()
 		return
 	}
-	mu.Unlock()
+	unlockState()
 	Yield("lock " + site)
 	for {
 		if try() {
 			return
 		}
-		mu.Lock()
+		lockState()
 		if ended {
-			mu.Unlock()
-			select {}
+			unlockState()
+			forever()
 		}
 		t := cur
 		t.state = waitLock
@@ -308,20 +401,22 @@ func Acquire(try func() bool, lock func(), site string) {
 			report.Deadlock = true
 			report.WaitGraph = waitGraphLocked() + "(last: " + site + ")"
 			endLocked()
-			mu.Unlock()
-			select {}
+			unlockState()
+			forever()
 		}
 		switchFrom(t, nxt)
-		mu.Unlock()
+		unlockState()
 	}
 }
 
 // Release releases a lock, makes every lock waiter runnable, and yields.
+//
+//go:norace
 func Release(unlock func(), site string) {
 	unlock()
-	mu.Lock()
+	lockState()
 	if !active || ended || cur == nil {
-		mu.Unlock()
+		unlockState()
 		return
 	}
 	for _, t := range tasks {
@@ -329,41 +424,60 @@ func Release(unlock func(), site string) {
 			t.state = runnable
 		}
 	}
-	mu.Unlock()
+	unlockState()
 	Yield("unlock " + site)
 }
 
 // Go starts fn as a task (or as a plain goroutine when no run is active).
+//
+//go:norace
 func Go(fn func(), site string) {
-	mu.Lock()
+	lockState()
 	if !active || ended || cur == nil {
-		mu.Unlock()
+		unlockState()
 		go fn()
 		return
 	}
 	name := fmt.Sprintf("%s>%s#%d", cur.name, site, len(tasks))
-	spawnLocked(name, fn)
-	logf("spawned %s", name)
-	mu.Unlock()
+	nt := spawnLocked(name, fn)
+	logf("spawned t%d = %s", nt.id, name)
+	unlockState()
 	Yield("go " + site)
 }
 
-// WGAdd / WGDone / WGWait shadow a sync.WaitGroup so that a task waiting for
-// it gives up the token instead of blocking the whole simulation.
-func WGAdd(wg *sync.WaitGroup, n int) {
-	mu.Lock()
-	if active && !ended {
-		wgCount[wg] += n
+//go:norace
+func wgEntryLocked(wg *sync.WaitGroup) *wgEntry {
+	for _, e := range wgs {
+		if e.wg == wg {
+			return e
+		}
 	}
-	mu.Unlock()
+	e := &wgEntry{wg: wg}
+	wgs = append(wgs, e)
+	return e
+}
+
+// WGAdd / WGDone / WGWait shadow a sync.WaitGroup so that a task waiting for
+// it gives up the token instead of blocking the whole simulation.  The real
+// WaitGroup is still operated, so its happens-before edges are the program's.
+//
+//go:norace
+func WGAdd(wg *sync.WaitGroup, n int) {
+	lockState()
+	if active && !ended {
+		wgEntryLocked(wg).n += n
+	}
+	unlockState()
 	wg.Add(n)
 }
 
+//go:norace
 func WGDone(wg *sync.WaitGroup) {
-	mu.Lock()
+	lockState()
 	if active && !ended {
-		wgCount[wg]--
-		if wgCount[wg] <= 0 {
+		e := wgEntryLocked(wg)
+		e.n--
+		if e.n <= 0 {
 			for _, t := range tasks {
 				if t.state == waitWG && t.wg == wg {
 					t.state = runnable
@@ -371,18 +485,19 @@ func WGDone(wg *sync.WaitGroup) {
 			}
 		}
 	}
-	mu.Unlock()
+	unlockState()
 	wg.Done()
 }
 
+//go:norace
 func WGWait(wg *sync.WaitGroup) {
-	mu.Lock()
+	lockState()
 	if !active || ended || cur == nil {
-		mu.Unlock()
+		unlockState()
 		wg.Wait()
 		return
 	}
-	for wgCount[wg] > 0 {
+	for wgEntryLocked(wg).n > 0 {
 		t := cur
 		t.state = waitWG
 		t.wg = wg
@@ -391,17 +506,19 @@ func WGWait(wg *sync.WaitGroup) {
 			report.Deadlock = true
 			report.WaitGraph = waitGraphLocked() + "(waitgroup)"
 			endLocked()
-			mu.Unlock()
-			select {}
+			unlockState()
+			forever()
 		}
 		switchFrom(t, nxt)
 	}
-	mu.Unlock()
+	unlockState()
 	wg.Wait()
 }
 
 // Keys returns the keys of a string-keyed map in the order this run iterates
 // it: iteration order is a choice of the tape instead of a runtime coin.
+// (Reading the keys is a read of the program's map, exactly like the range
+// statement it replaces.)
 func Keys(m interface{}) []string {
 	v := reflect.ValueOf(m)
 	if v.Kind() != reflect.Map {
@@ -412,11 +529,16 @@ func Keys(m interface{}) []string {
 		ks = append(ks, k.String())
 	}
 	sort.Strings(ks)
-	mu.Lock()
+	return order(ks)
+}
+
+//go:norace
+func order(ks []string) []string {
+	lockState()
 	mode := tape.MapOrder
 	act := active && !ended
-	mu.Unlock()
 	if !act {
+		unlockState()
 		return ks
 	}
 	switch mode {
@@ -425,12 +547,11 @@ func Keys(m interface{}) []string {
 			ks[i], ks[j] = ks[j], ks[i]
 		}
 	case "shuffled":
-		mu.Lock()
 		for i := len(ks) - 1; i > 0; i-- {
 			j := int(next64() % uint64(i+1))
 			ks[i], ks[j] = ks[j], ks[i]
 		}
-		mu.Unlock()
 	}
+	unlockState()
 	return ks
 }
